@@ -98,7 +98,11 @@ class Project:
         order = getattr(self, "order", None)
         if order and sorted(order) == list(range(len(steps))):
             steps = [steps[k] for k in order]
-        return graph(steps)
+        g = graph(steps)
+        for s in steps:
+            for sp, c in zip(s["eff"].get("reads", []), s["eff"].get("creads", [])):
+                add_spell(g, sp, c)
+        return g
 
     def all_outputs(self, g):
         return [o for s in g["steps"] if not s["phony"] for o in s["outs"]]
